@@ -9,6 +9,7 @@ import (
 	"fmt"
 	"math/big"
 	"strings"
+	"sync"
 
 	sdkmath "cosmossdk.io/math"
 
@@ -73,9 +74,14 @@ func runC13(c *vk.Ctx) {
 		}
 		c.Eval(1)
 		var got osmomath.BigDec
-		rec, _ := vk.Guard(func() { got = osmomath.Exp2(mkBD(xi)) })
+		xop := mkBD(xi)
+		rec, _ := vk.Guard(func() { got = osmomath.Exp2(xop) })
 		if rec != nil {
 			c.Violate("C13.exp2_panic", nil, "Exp2(%s/1e36) panicked inside its domain: %v", xi, rec)
+			return
+		}
+		if xop.BigInt().Cmp(xi) != 0 {
+			c.Violate("C13.exp2_error", map[string]any{"operand_changed": true}, "Exp2 changed its operand from %s/1e36 to %s/1e36", xi, xop.BigInt())
 			return
 		}
 		want := bfExp2(bfScaled(xi, 36))
@@ -160,6 +166,11 @@ func runC13(c *vk.Ctx) {
 		})
 		if rec != nil {
 			c.Violate("C13.log_panic", sig, "%s(%s/1e36, base %v) panicked inside its domain: %v", sig["fn"], xi, baseI, rec)
+			return
+		}
+		if x.BigInt().Cmp(xi) != 0 {
+			// a caller that uses its value again gets the logarithm of something else
+			c.Violate("C13.log_error", map[string]any{"fn": sig["fn"], "operand_changed": true}, "%s changed its operand from %s/1e36 to %s/1e36", sig["fn"], xi, x.BigInt())
 			return
 		}
 		diff := bfAbs(bfNew().Sub(bfScaled(got.BigInt(), 36), want))
@@ -251,6 +262,14 @@ func runC13(c *vk.Ctx) {
 			}
 			c.Class("pow|iteration-limit")
 			return
+		}
+		if r.Intn(3) == 0 {
+			// the same operand objects used again: the answer for the same input may not change
+			var again osmomath.Dec
+			if rec2, _ := vk.Guard(func() { again = osmomath.Pow(base, exp) }); rec2 != nil || !again.Equal(got) || base.BigInt().Cmp(bi) != 0 || exp.BigInt().Cmp(ei) != 0 {
+				c.Violate("C13.pow_precision", map[string]any{"repeat_call": true}, "Pow(%s/1e18, %s/1e18) = %s the first time and %v (panic %v) when called again with the same operands (operands now %s, %s)", bi, ei, got, again, rec2, base.BigInt(), exp.BigInt())
+				return
+			}
 		}
 		want := bfPow(bfScaled(bi, 18), bfScaled(ei, 18))
 		g := bfScaled(got.BigInt(), 18)
@@ -438,6 +457,7 @@ func runC13(c *vk.Ctx) {
 	})
 
 	runC13Search(c)
+	runC13Concurrent(c)
 }
 
 // c13DerivedTol: y = L/c with |ΔL| <= base tolerance and c given to 36 decimals (|Δc| <= 1e-36).
@@ -526,6 +546,13 @@ func runC13Search(c *vk.Ctx) {
 			ad := r.I64n(1 << uint(r.Intn(20)))
 			tol.add = new(big.Rat).SetInt64(ad)
 			et.AdditiveTolerance = sdkmath.LegacyNewDec(ad)
+			if r.Intn(3) == 0 {
+				// a tolerance that is not a whole number (0.7, 1.5, 2.6 ...): |diff| is an integer for the Int variant,
+				// so 2 is outside 1.5 and 1 is inside
+				tenths := r.I64n(60)
+				tol.add = big.NewRat(tenths, 10)
+				et.AdditiveTolerance = sdkmath.LegacyNewDecWithPrec(tenths, 1)
+			}
 		}
 		if r.Intn(3) == 0 {
 			mu := r.I64n(1000) // in 1e-4
@@ -552,6 +579,27 @@ func runC13Search(c *vk.Ctx) {
 			fineFrac = r.BigBelow(e36) // a target off the dyadic grid, so that the search really has to close in
 		}
 		if i%2 == 0 {
+			// the comparison predicate itself, on pairs around the tolerance
+			for k := 0; k < 4; k++ {
+				ex := new(big.Int).Set(target)
+				ac := new(big.Int).Add(target, big.NewInt(r.Range(-4, 4)))
+				if k == 3 {
+					ac = new(big.Int).Add(target, big.NewInt(r.Range(-2000000, 2000000)))
+				}
+				want := tol.within(new(big.Rat).SetInt(ex), new(big.Rat).SetInt(ac))
+				gotCmp := et.Compare(sdkmath.NewIntFromBigInt(ex), sdkmath.NewIntFromBigInt(ac))
+				// one-sided: accepting a pair outside the tolerance makes the search return a wrong input; refusing a
+				// pair inside it only makes the search report non-convergence, which the statement allows
+				// (e.g. Compare(0, 0) with a multiplicative tolerance answers -1)
+				if gotCmp == 0 && !want {
+					c.Violate("C13.binary_search", map[string]any{"kind": "Int-compare", "dir": int(tol.dir)}, "ErrTolerance{add=%v mul=%v dir=%d}.Compare(%s, %s) = %d, the documented predicate is %v", tol.add, tol.mul, tol.dir, ex, ac, gotCmp, want)
+					break
+				}
+				if gotCmp != 0 && ex.Cmp(ac) != 0 && (gotCmp > 0) != (ex.Cmp(ac) > 0) {
+					c.Violate("C13.binary_search", map[string]any{"kind": "Int-compare-sign"}, "Compare(%s, %s) = %d has the wrong sign", ex, ac, gotCmp)
+					break
+				}
+			}
 			calls := 0
 			got, err := osmomath.BinarySearch(func(x osmomath.Int) (osmomath.Int, error) {
 				calls++
@@ -598,5 +646,110 @@ func runC13Search(c *vk.Ctx) {
 				c.Class("bsearch|BigDec|f%d|dir%d|nonconv", kind, tol.dir)
 			}
 		}
+	})
+}
+
+// ---------------------------------------------------------------- concurrent callers
+
+// The math functions are called from query goroutines while blocks execute, so each must be safe for concurrent
+// callers that do not share operands. Every batch is first evaluated sequentially (the reference), then the same
+// calls run from several goroutines at once; every concurrent answer must equal the sequential one (which the
+// other parts of this monitor compare with the high-precision references).
+type c13Call struct {
+	name string
+	fn   func() string
+}
+
+func c13ConcurrentBatch(r *vk.Rng, n int) []c13Call {
+	calls := make([]c13Call, 0, n)
+	for k := 0; k < n; k++ {
+		switch r.Intn(7) {
+		case 0:
+			xi := r.BigMag(0, 60)
+			calls = append(calls, c13Call{"MonotonicSqrt", func() string {
+				v, err := osmomath.MonotonicSqrt(mkDec(new(big.Int).Set(xi)))
+				return fmt.Sprint(v, err)
+			}})
+		case 1:
+			xi := r.BigMag(0, 100)
+			calls = append(calls, c13Call{"MonotonicSqrtBigDec", func() string {
+				v, err := osmomath.MonotonicSqrtBigDec(mkBD(new(big.Int).Set(xi)))
+				return fmt.Sprint(v, err)
+			}})
+		case 2:
+			xi := r.BigBelow(new(big.Int).Mul(big.NewInt(512), e36))
+			calls = append(calls, c13Call{"Exp2", func() string { return osmomath.Exp2(mkBD(new(big.Int).Set(xi))).String() }})
+		case 3:
+			xi := c13PosBD(r)
+			calls = append(calls, c13Call{"LogBase2", func() string { return mkBD(new(big.Int).Set(xi)).LogBase2().String() }})
+		case 4:
+			bi := new(big.Int).Add(r.BigBelow(new(big.Int).Mul(big.NewInt(19), new(big.Int).Quo(e18, big.NewInt(10)))), new(big.Int).Quo(e18, big.NewInt(20)))
+			ei := r.BigBelow(e18)
+			calls = append(calls, c13Call{"Pow", func() string {
+				return osmomath.Pow(mkDec(new(big.Int).Set(bi)), mkDec(new(big.Int).Set(ei))).String()
+			}})
+		case 5:
+			xi := c13PosBD(r)
+			calls = append(calls, c13Call{"TickLog", func() string { return mkBD(new(big.Int).Set(xi)).TickLog().String() }})
+		default:
+			xi := r.BigMag(0, 40)
+			tp := int64(1 + r.Intn(17))
+			calls = append(calls, c13Call{"SigFigRound", func() string {
+				return osmomath.SigFigRound(mkDec(new(big.Int).Set(xi)), sdkmath.NewIntWithDecimal(1, int(tp))).String()
+			}})
+		}
+	}
+	return calls
+}
+
+func runC13Concurrent(c *vk.Ctx) {
+	const goroutines = 8
+	c.Cases("concurrent-callers", c.N(24, 960), func(i int, r *vk.Rng) {
+		calls := c13ConcurrentBatch(r, 600)
+		ref := make([]string, len(calls))
+		for k, cl := range calls {
+			cl := cl
+			rec, _ := vk.Guard(func() { ref[k] = cl.fn() })
+			if rec != nil {
+				ref[k] = fmt.Sprint("panic: ", rec)
+			}
+		}
+		type bad struct {
+			k   int
+			got string
+		}
+		var mu sync.Mutex
+		var bads []bad
+		var wg sync.WaitGroup
+		for g := 0; g < goroutines; g++ {
+			wg.Add(1)
+			go func(g int) {
+				defer wg.Done()
+				for rep := 0; rep < 3; rep++ {
+					for k := (g * 37) % len(calls); k < len(calls); k += 1 + g%3 {
+						var got string
+						cl := calls[k]
+						rec, _ := vk.Guard(func() { got = cl.fn() })
+						if rec != nil {
+							got = fmt.Sprint("panic: ", rec)
+						}
+						if got != ref[k] {
+							mu.Lock()
+							if len(bads) < 5 {
+								bads = append(bads, bad{k, got})
+							}
+							mu.Unlock()
+						}
+					}
+				}
+			}(g)
+		}
+		wg.Wait()
+		c.Eval(int64(len(calls)) * 4)
+		for _, b := range bads {
+			c.Violate("C13.concurrent_callers", map[string]any{"fn": calls[b.k].name}, "%s returned %s when called alone and %s when %d goroutines were inside the math library at once (no operand is shared between the calls)", calls[b.k].name, ref[b.k], b.got, goroutines)
+			return
+		}
+		c.Class("concurrent|batch-of-600|%d-goroutines", goroutines)
 	})
 }
